@@ -21,6 +21,7 @@ from .resolver_map import ResolverMap
 from .scalars import SPECIFIED_SCALAR_TYPES
 from .types import (
     Directive,
+    EnumType,
     GraphQLAbstractType,
     GraphQLType,
     InputObjectType,
@@ -628,17 +629,31 @@ def _clone_type(type_: NamedType) -> NamedType:
         fields = []
         for field in cloned.fields:
             field = copy.copy(field)
-            field.arguments = [copy.copy(arg) for arg in field.arguments]
+            field.arguments = [
+                _clone_input_value(arg) for arg in field.arguments
+            ]
             fields.append(field)
         cloned.fields = fields
     elif isinstance(cloned, InputObjectType):
-        cloned.fields = [copy.copy(field) for field in cloned.fields]
+        cloned.fields = [_clone_input_value(field) for field in cloned.fields]
+    elif isinstance(cloned, EnumType):
+        # Enum values are visited (and possibly modified) on their own.
+        cloned._set_values([copy.copy(value) for value in cloned.values])
+    return cloned
+
+
+def _clone_input_value(input_value: Any) -> Any:
+    cloned = copy.copy(input_value)
+    if cloned.has_default_value:
+        # Lists and input objects are containers of their own.
+        cloned.default_value = copy.deepcopy(input_value.default_value)
     return cloned
 
 
 def _clone_directive(directive: Directive) -> Directive:
     cloned = copy.copy(directive)
-    cloned.arguments = [copy.copy(arg) for arg in directive.arguments]
+    cloned.locations = list(directive.locations)
+    cloned.arguments = [_clone_input_value(arg) for arg in directive.arguments]
     cloned.argument_map = {arg.name: arg for arg in cloned.arguments}
     return cloned
 
